@@ -136,13 +136,25 @@ def run_impl(mode, histories, prof):
     out = _run_sharded(lambda fi, fo: [b, mode, fi, fo], lines, f'impl-{mode}-{prof}')
     return [parse_obs_line(l) for l in out]
 
+_csz = None
+def column_sizes():
+    """size_of::<R>() of the column region of every entry with a ColumnsRegion, measured by the harness"""
+    global _csz
+    if _csz is None:
+        w = workdir(); fo = os.path.join(w, 'sizes.out'); fi = os.path.join(w, 'sizes.in')
+        open(fi, 'w').close()
+        subprocess.run([harness_bin('checked'), 'sizes', fi, fo], check=True)
+        _csz = {l.split()[0]: l.split()[1] for l in open(fo) if l.strip()}
+    return _csz
+
 def run_model(mode, histories, prof, numbering):
     """numbering: entry name -> catalogue number; the model takes `NUM CHK` (None: the name itself)"""
     chk = '1' if prof == 'checked' else '0'
     if numbering is None:
         lines = [';'.join([name] + ops) for name, ops in histories]
     else:
-        lines = [';'.join([f'{numbering[name]:x} {chk}'] + ops) for name, ops in histories]
+        cs = column_sizes()
+        lines = [';'.join([f'{numbering[name]:x} {chk} {cs.get(name, "-")}'] + ops) for name, ops in histories]
     out = _run_sharded(lambda fi, fo: [DRIVER, mode, fi, fo], lines, f'model-{mode}-{prof}')
     return [parse_obs_line(l) for l in out]
 
